@@ -470,7 +470,7 @@ type Calc {
   join(a: String!, b: String!, c: String!): String!
   window(lo: Int, hi: Int = 9): String!
 }
-`, "hand/models.go": methodOrderModels, "cmd/harness/main.go": harnessSource(false, true)},
+`, "hand/models.go": methodOrderModels},
 		// schema split over files, one of which holds ONLY directive definitions (follow-schema
 		// generates one Go file per schema file)
 		"directivesfile": {"schema/directives.graphqls": `directive @auth(role: String = "user") on FIELD_DEFINITION | OBJECT
